@@ -535,7 +535,7 @@ class CircuitTemplate(AbstractBaseTemplate):
                 columns.append(key)
                 data.append(out)
         if multi_index:
-            columns = MultiIndex.from_tuples(columns)
+            columns = MultiIndex.from_tuples([c if isinstance(c, tuple) else (c,) for c in columns])
         results = DataFrame(data=np.asarray(data).T, columns=columns, index=time_vec)
 
         # store current state of the network
